@@ -948,7 +948,7 @@ def run(ctx):
             if ml != il:
                 ctx.disagree("propagate-history", inp, ml[:2000], il[:2000])
 
-    n_cases = ctx.pick(720, 8000)
+    n_cases = ctx.pick(720, 7000)
     cases = degenerate_cases(ctx.rng, tables, ok_grid, ctx.pick(1, 8))
     ctx.count("degenerate_family", len(cases))
     forced = [{"mode": "named"}, {"mode": "numeric"}, {"mode": "named", "reject": True}, {"mode": "numeric", "reject": True}]
@@ -1074,7 +1074,7 @@ def variant(case, rng, tables, kind=None):
         else:
             cols = [x for x in t["cols"] if x in plain_unscaled or (x in meth_suffix and (
                 not numeric or meth_suffix[x] not in (tb["eqTimeKey"], tb["eqCostKey"])))]
-        if not cols:
+        if not cols or not t["rows"]:
             return None
         col = rng.choice(cols)
         row = rng.choice(t["rows"])
